@@ -343,6 +343,29 @@ func Gen(rng *rand.Rand, e *Env) *Program {
 		if p.Ops[i].K == "set" && p.Ops[i].Key == "Content-Length" && p.Ops[i].Val == "=total" {
 			t := total
 			if intent == "cl-mismatch" {
+				// half of them: the declared length is what the first k body writes amount to, the
+				// later writes exceed it (the one well-defined kind of mismatch)
+				var sizes []int
+				rf := false
+				for _, o := range p.Ops {
+					switch o.K {
+					case "readfrom":
+						rf = true
+					case "write", "writestring":
+						if o.N > 0 {
+							sizes = append(sizes, o.N)
+						}
+					}
+				}
+				if !rf && len(sizes) >= 2 && rng.Intn(2) == 0 {
+					k := 1 + rng.Intn(len(sizes)-1)
+					t = 0
+					for _, n := range sizes[:k] {
+						t += n
+					}
+					p.Ops[i].Val = strconv.Itoa(t)
+					continue
+				}
 				if rng.Intn(2) == 0 || t == 0 {
 					t += 1 + rng.Intn(10)
 				} else {
